@@ -163,7 +163,7 @@ func checkC11(c *Ctx) {
 	}
 	H := m.cfgPath("HeartbeatInterval")
 	D := m.cfgPath("DisconnectGracePeriod")
-	want := fmt.Sprintf("select[(3 * %s) if {(0 == %s); NOT ((3 * %s) < 5000000000)} | 5000000000 if {((3 * %s) < 5000000000); (0 == %s)} | %s if {NOT (0 == %s)}]", H, D, H, H, D, D, D)
+	want := fmt.Sprintf("select[(3 * %s) if {(0 == %s); (5000000000 <= (3 * %s))} | 5000000000 if {((3 * %s) < 5000000000); (0 == %s)} | %s if {NOT (0 == %s)}]", H, D, H, H, D, D, D)
 	for _, s := range sites {
 		fn := shortFn(s.fn)
 		got := m.Gated(s.call.Call.Args[0])
